@@ -169,27 +169,41 @@ func runExtWorld(prefix string, w *World) (*core.Failure, string) {
 	if !res.OK() || res.Generated != len(w.Ents) {
 		return core.Failf(prefix+"/run-failed", "run over valid configs failed or generated %d of %d: %s\n%v", res.Generated, len(w.Ents), res.String(), w.Texts()), "failed"
 	}
-	decs := map[string]*decoded{}
-	for i := range w.Ents {
-		dec, err := readEntity(d, &w.Ents[i])
-		if err != nil || dec.Cert == nil {
-			return core.Failf(prefix+"/no-certificate", "%s: %v", w.Ents[i].File, err), "failed"
+	verify := func(phase string) *core.Failure {
+		decs := map[string]*decoded{}
+		for i := range w.Ents {
+			dec, err := readEntity(d, &w.Ents[i])
+			if err != nil || dec.Cert == nil {
+				return core.Failf(prefix+"/no-certificate", "%s: %s: %v", phase, w.Ents[i].File, err)
+			}
+			decs[w.Ents[i].EffAlias()] = dec
 		}
-		decs[w.Ents[i].EffAlias()] = dec
+		for i := range w.Ents {
+			e := &w.Ents[i]
+			dec := decs[e.EffAlias()]
+			ctx := extCtx{SubjectBits: dec.Cert.SPKIBits, IssuerBits: dec.Cert.SPKIBits}
+			if e.Issuer != "" {
+				ctx.IssuerBits = decs[e.Issuer].Cert.SPKIBits
+			}
+			if f := compareExtensions(prefix, dec, effectiveExts(w, e), ctx, phase+": "+e.EffAlias()); f != nil {
+				f.Msg += "\n" + fmt.Sprint(w.Texts())
+				return f
+			}
+		}
+		return nil
 	}
-	for i := range w.Ents {
-		e := &w.Ents[i]
-		dec := decs[e.EffAlias()]
-		ctx := extCtx{SubjectBits: dec.Cert.SPKIBits, IssuerBits: dec.Cert.SPKIBits}
-		if e.Issuer != "" {
-			ctx.IssuerBits = decs[e.Issuer].Cert.SPKIBits
-		}
-		if f := compareExtensions(prefix, dec, effectiveExts(w, e), ctx, e.EffAlias()); f != nil {
-			f.Msg += "\n" + fmt.Sprint(w.Texts())
-			return f, "ok"
-		}
+	if f := verify("first run"); f != nil {
+		return f, "ok"
 	}
-	return nil, "ok"
+	// certificates that replace existing ones follow the same rules
+	res2 := core.Run(d, core.FlagAll)
+	if res2.Panic != "" {
+		return core.Failf(prefix+"/panic", "gopki panicked: %s", res2.Panic), "panic"
+	}
+	if !res2.OK() || res2.Generated != len(w.Ents) {
+		return core.Failf(prefix+"/rerun-failed", "generate-all run over the same configs failed: %s\n%v", res2.String(), w.Texts()), "failed"
+	}
+	return verify("replacing run (generate-all)"), "ok"
 }
 
 func genExtList(t *rapid.T, label string, kinds []string, maxN, maxRaw int) []core.Extension {
@@ -450,7 +464,13 @@ func TestC06(t *testing.T) {
 		}
 	}
 	gen := func(t *rapid.T) extCase {
-		return genExtCase(t, core.AllKinds, 12, 4096, rapid.Bool().Draw(t, "profiles"))
+		c := genExtCase(t, core.AllKinds, 12, 4096, rapid.Bool().Draw(t, "profiles"))
+		if rapid.IntRange(0, 4).Draw(t, "version-manipulation") == 0 {
+			// the extension list does not depend on the version number written into the certificate
+			e := &c.W.Ents[len(c.W.Ents)-1]
+			e.Manip = &core.Manip{Version: core.Int64P(int64(rapid.SampledFrom([]int{0, 1, 2, 3, -1}).Draw(t, "version")))}
+		}
+		return c
 	}
 	core.Rapid(r, "extlist", r.Pick(3000, 60000), gen, wrap)
 }
